@@ -60,6 +60,26 @@ def run(ctx):
     ctx.corr([("dlms_script", s) for s in cases], impl, "send_every_kind_every_state", decisive=lambda op, a: True)
     sessions = [cc.hls_session(suite=s, cic=c0, mic=m0, meter_ic=m0 + 1) for s, c0, m0 in ((0, 0, 0), (1, 9, 4), (2, 4294967200, 100))] + [cc.pre_session(suite=2)]
     ctx.corr([("dlms_script", [k, c, ops]) for k, c, ops, _ in sessions], impl, "sessions", decisive=lambda op, a: True)
+    # ---- a connection object that was first used without keys and is then given its keys by attribute assignment protects
+    #      everything from then on (and one whose keys are removed stops): the part after the assignment must agree with the
+    #      model started from the new configuration and the state reached
+    k_plain, c_plain, ops_plain, _ = cc.plain_session()
+    for suite in (0, 2):
+        ek, ak = cc.keys(suite)
+        k_keyed = cc.cfg(ek=ek, ak=ak, suite=suite)
+        variants = [(k_plain, c_plain, ops_plain[:3], k_keyed, [[0, cc.get_v()], [0, cc.set_v()]]),                      # READY after a plain association
+                    (k_plain, c_plain, ops_plain, k_keyed, [[0, cc.aarq_v(cc.CONF_C, 65535, cc.CLIENT_TITLE, 5, cc.CHALLENGE_C, True)]]),   # released, then a new association
+                    (k_plain, c_plain, [], k_keyed, [[0, cc.aarq_v(cc.CONF_C, 65535, cc.CLIENT_TITLE, 5, cc.CHALLENGE_C, True)]]),
+                    (k_keyed, cc.cst(state=2, cic=3, mic=5, mtitle=cc.METER_TITLE), [[0, cc.get_v()]], k_plain, [[1, cc.plain_responses()[8]], [0, cc.get_v()]])]
+        for k1, c1, ops1, k2, ops2 in variants:
+            rows = cc.run_impl(k1, c1, ops1 + [[3, k2]] + ops2)
+            after = rows[len(ops1)][1]
+            want = lib.run_model([("dlms_script", [k2, after, ops2])])[0]
+            got = lib.canon([[x[0], x[1]] for x in rows[len(ops1) + 1:]])
+            ctx.tried("keys_assigned_later", key=lib.v_text([k1, k2, ops2])[:300])
+            if lib.v_text(lib.canon(want)) != lib.v_text(got):
+                ctx.fail("protection_does_not_follow_assigned_keys", {"rekey": True, "script": lib.v_text([k1, c1, ops1, k2, ops2])[:12000]},
+                         lib.v_text(want)[:300], lib.v_text(got)[:300])
     # ---- search 1: every output of a keyed connection is the ciphered form of what was sent
     for k, c, ops in cases + [[k, c, ops] for k, c, ops, _ in sessions]:
         if k[1] is None and k[2] is None:
@@ -118,6 +138,13 @@ def run(ctx):
 
 def replay(ctx, rp):
     c = rp["case"]
+    if c.get("rekey"):
+        k1, c1, ops1, k2, ops2 = lib.v_parse(c["script"])
+        rows = cc.run_impl(k1, c1, ops1 + [[3, k2]] + ops2)
+        want = lib.run_model([("dlms_script", [k2, rows[len(ops1)][1], ops2])])[0]
+        got = lib.canon([[x[0], x[1]] for x in rows[len(ops1) + 1:]])
+        print("model from the new configuration:", lib.v_text(lib.canon(want))[:300], "\nimplementation:", lib.v_text(got)[:300])
+        return lib.v_text(lib.canon(want)) != lib.v_text(got)
     k, before = lib.v_parse(c["cfg"]), lib.v_parse(c["cst"])
     if "plain" in c:
         rows = cc.run_impl(k, before, [[1, bytes.fromhex(c["plain"])]])
